@@ -192,8 +192,8 @@ def build_template(case):
         t.set_tags([r[7] for r in rows])
     if rows and case.get("template_extra") and not any(e.get("swap") for e in case.get("table", [])):
         # the species carries a per-atom array the system does not have (`ase.build.molecule("O2")` comes with
-        # initial_magmoms): ASE's extend creates it on the system, zero-filled — see the recorded finding for what a
-        # rejected or failed insertion leaves behind
+        # initial_magmoms): ASE's extend creates it on the system, zero-filled — a rejected or failed insertion must take
+        # it away again (it used to stay: the repaired finding of DESIGN 12.8i)
         t.set_initial_magnetic_moments([1.0] * len(rows))
     return t
 
